@@ -73,16 +73,23 @@ class Callee:
 
 
 def erase_generics(p):
+    """drop every `<...>` group of a printed path (`->` inside fn types does not close a group):
+    `std::option::Option::<T>::unwrap` -> `std::option::Option::unwrap`"""
     out = []
     depth = 0
     i = 0
-    while i < len(p):
+    n = len(p)
+    while i < n:
         c = p[i]
+        if c == "-" and i + 1 < n and p[i + 1] == ">":
+            if depth == 0:
+                out.append("->")
+            i += 2
+            continue
         if c == "<":
-            # keep leading `<T as Trait>` qualified paths intact at depth 0 position 0
             depth += 1
         elif c == ">":
-            depth -= 1
+            depth = max(0, depth - 1)
         elif depth == 0:
             out.append(c)
         i += 1
@@ -133,6 +140,7 @@ class View:
         self._defs = None
         self._callees = {}
         self._origin_memo = {}
+        self.opaque = set()   # locals whose provenance is deliberately not followed (named state variables)
 
     # ------------------------------------------------------------------ CFG
     def _reach_from(self, start, barrier=()):
@@ -373,7 +381,7 @@ class View:
         key = l
         if key in self._origin_memo:
             return self._origin_memo[key]
-        if depth > 60:
+        if depth > 60 or l in self.opaque:
             return ("multi", l)
         self._origin_memo[key] = ("multi", l)  # cycle guard
         ds = self.defs().get(l, [])
@@ -393,6 +401,10 @@ class View:
             res = ("undef", l)
         self._origin_memo[key] = res
         return res
+
+    def set_opaque(self, locals_):
+        self.opaque = set(locals_)
+        self._origin_memo = {}
 
     def origin_call(self, bb, depth=0):
         c = self.callee(bb)
